@@ -72,6 +72,10 @@ func main() {
 		debugProtoSpec(os.Args[2:])
 		return
 	}
+	if id == "consteval" && len(os.Args) > 2 {
+		debugConstEval(os.Args[2:])
+		return
+	}
 	if id == "proto" && len(os.Args) > 2 {
 		debugProto(os.Args[2:])
 		return
